@@ -44,7 +44,7 @@ func currentStream() []byte {
 
 // genC05: marshal/unmarshal round trip at trie level.
 func genC05(c *lp.Ctx) {
-	n := c.Pick(200, 2000)
+	n := c.Pick(200, 700)
 	size := c.Pick(200, 1000)
 	type stream struct {
 		cs  *Case
@@ -102,7 +102,7 @@ func genC05(c *lp.Ctx) {
 		}
 	}
 	// no residue: sequences of Unmarshal/Reset of length <= 3 on one instance
-	m := c.Pick(150, 1500)
+	m := c.Pick(150, 500)
 	for it := 0; it < m && len(pool) > 1; it++ {
 		last := pool[c.Rng.Intn(len(pool))]
 		// all streams of one history must share the encoder of the instance
@@ -155,7 +155,7 @@ func genC05(c *lp.Ctx) {
 
 // genC07: after a rejected load the instance answers as an empty trie.
 func genC07(c *lp.Ctx) {
-	n := c.Pick(150, 1500)
+	n := c.Pick(150, 500)
 	size := c.Pick(120, 600)
 	for it := 0; it < n; it++ {
 		ks := gen.Any(c.Rng, size)
@@ -373,7 +373,7 @@ func genC17(c *lp.Ctx) {
 
 // genC20: build and load neither modify nor alias caller-owned memory.
 func genC20(c *lp.Ctx) {
-	n := c.Pick(200, 2000)
+	n := c.Pick(200, 700)
 	size := c.Pick(150, 800)
 	for it := 0; it < n; it++ {
 		ks := gen.Any(c.Rng, size)
